@@ -89,7 +89,8 @@ def generate(rng: random.Random, cons: dict) -> dict:
     occupied = np.zeros((T, *fshape), dtype=bool)
     nodes: dict = {}
     nid = 1 if id_style != "large" else rng.randint(200, 900)
-    thick = 2 if (cons.get("thick3d") and ndim == 4) else 1
+    w["thick3d"] = bool(seg and ndim == 4 and rng.random() < 0.5)
+    thick = 2 if w["thick3d"] else 1
     for _ in range(n_nodes):
         t = rng.randrange(T)
         if seg:
@@ -163,8 +164,11 @@ def shape_feature_supported(w: dict, key: str) -> bool:
     aniso = w["scale"] is not None and len(set(w["scale"][1:])) > 1
     if w["ndim"] == 3 and aniso and key in ("perimeter", "circularity"):
         return False  # skimage: perimeter supports isotropic spacings only
-    if w["ndim"] == 4 and key == "ellipse_axis_radii":
-        return False  # math domain error on degenerate masks (rounding-negative radicand)
+    if w["ndim"] == 4 and key == "ellipse_axis_radii" and not w.get("thick3d"):
+        # math.sqrt of a rounding-negative radicand on flat/linear masks: only enabled in
+        # worlds whose initial masks are >= 2 voxels thick; a run that still meets the
+        # exception (after a thin stroke) is discarded as dependency_abort
+        return False
     return True
 
 
